@@ -12,16 +12,19 @@ def _assign_value(tree, name):
     raise ExtractError(f'no top-level assignment to {name}')
 
 def _exclusion(tree, name):
-    """The string literal X in `... for c in ESCAPES_INV if c not in X` of regex `name`."""
+    """The string literal X in `re.compile('|'.join(re.escape(c) for c in ESCAPES_INV if c not in X))`;
+    the whole expression must have exactly this shape."""
     val = _assign_value(tree, name)
     found = []
     for n in ast.walk(val):
         if isinstance(n, ast.Compare) and len(n.ops) == 1 and isinstance(n.ops[0], ast.NotIn) \
                 and isinstance(n.comparators[0], ast.Constant) and isinstance(n.comparators[0].value, str):
             found.append(n.comparators[0].value)
-    src = ast.unparse(val)
-    if len(found) != 1 or 'ESCAPES_INV' not in src or "'|'.join" not in src or 're.escape' not in src:
-        raise ExtractError(f'{name}: unrecognised construction: {src[:80]}')
+    if len(found) != 1:
+        raise ExtractError(f'{name}: unrecognised construction: {ast.unparse(val)[:120]}')
+    want = ast.parse("re.compile('|'.join(re.escape(c) for c in ESCAPES_INV if c not in %r))" % found[0], mode='eval').body
+    if ast.dump(val) != ast.dump(want):
+        raise ExtractError(f'{name}: unrecognised construction: {ast.unparse(val)[:160]}')
     return found[0]
 
 def generate(repo):
